@@ -1,7 +1,154 @@
 import ComposeVerif.Ops.Common
-/-! line-protocol ops for C02 (filled in by the property's owner) -/
+import ComposeVerif.Model.Val
+import ComposeVerif.Model.Path
+import ComposeVerif.Model.MapOrder
+import ComposeVerif.Gen.Tables
+/-! line-protocol ops for C02 (determinism): path matching, the regenerated rule tables, and the
+map→sequence decoders of `Model/MapOrder.lean`. -/
+open Lean
 namespace CV.Ops.C02
+open CV CV.Det
 
-def handlers : List (String × Handler) := []
+def parts (s : String) : List String := s.splitOn "."
+
+def tableByName : String → Option (List (List String × String))
+  | "mergeSpecials" => some CV.Gen.mergeSpecials
+  | "unique" => some CV.Gen.unique
+  | "transformers" => some CV.Gen.transformers
+  | "defaultValues" => some CV.Gen.defaultValues
+  | "resolvers" => some CV.Gen.resolvers
+  | "validationChecks" => some CV.Gen.validationChecks
+  | "castTable" => some CV.Gen.castTable
+  | _ => none
+
+def sortS (l : List String) : List String := (l.toArray.qsort (· < ·)).toList
+
+def strs (l : List String) : Json := Json.arr (l.map Json.str).toArray
+
+/-- `p.Matches(pattern)` -/
+def pmatchOp : Handler := fun args =>
+  Json.mkObj [("m", Json.bool (TPath.pmatch (parts (getStr args "pattern")) (parts (getStr args "path"))))]
+
+/-- the regenerated table as sorted rows `[pattern, handler]` -/
+def tableOp : Handler := fun args =>
+  match tableByName (getStr args "table") with
+  | none => Json.mkObj [("bad", "table")]
+  | some t =>
+    let rows := (t.map fun r => (".".intercalate r.1, r.2)).toArray.qsort (fun a b => a.1 < b.1)
+    Json.mkObj [("rows", Json.arr (rows.map fun r => Json.arr #[Json.str r.1, Json.str r.2]))]
+
+/-- every row of the table whose pattern matches the path (sorted); `first` = what first-match returns in list order -/
+def ruleAtOp : Handler := fun args =>
+  match tableByName (getStr args "table") with
+  | none => Json.mkObj [("bad", "table")]
+  | some t =>
+    let p := parts (getStr args "path")
+    let ms := (t.filter fun r => TPath.pmatch r.1 p).map fun r => ".".intercalate r.1
+    Json.mkObj [("matches", strs (sortS ms))]
+
+def withVal (args : Json) (k : String) (f : Val → Json) : Json :=
+  match Val.ofJson (getObj args k) with
+  | .ok v => f v
+  | .error e => Json.mkObj [("bad", e)]
+
+def intoSeqOp : Handler := fun args =>
+  withVal args "v" fun v =>
+    match intoSeq v with
+    | none => Json.mkObj [("nil", true)]
+    | some l => Json.mkObj [("seq", Val.toJson (.seq l))]
+
+def decErr (e : DecErr) : Json := Json.mkObj [("err", e.toString)]
+
+def sshOp : Handler := fun args =>
+  withVal args "v" fun v =>
+    match sshDecode v with
+    | .error e => decErr e
+    | .ok l => Json.mkObj [("ok", Json.arr (l.map fun kv => Json.arr #[Json.str kv.1, Json.str kv.2]).toArray)]
+
+def hostsOp : Handler := fun args =>
+  withVal args "v" fun v =>
+    match hostsDecode v with
+    | .error e => decErr e
+    | .ok m => Json.mkObj [("ok", strs (hostsRender m))]
+
+def mappingOp : Handler := fun args =>
+  withVal args "v" fun v =>
+    if getStr args "kind" = "mwe" then
+      match mweDecode v with
+      | .error e => decErr e
+      | .ok m =>
+        Json.mkObj [("ok", strs (sortStrs (m.map fun kv => match kv.2 with | none => kv.1 | some x => kv.1 ++ "=" ++ x))),
+                    ("mapping", strs (mappingValues (mweToMapping m)))]
+    else
+      match mappingDecode v with
+      | .error e => decErr e
+      | .ok m => Json.mkObj [("ok", strs (mappingValues m)),
+                             ("mwe", strs (sortStrs ((toMWE m).map fun kv => match kv.2 with | none => kv.1 | some x => kv.1 ++ "=" ++ x)))]
+
+/-- the two sequence mergers at their real paths: `services.*.labels` (mergeToSequence), `services.*.extra_hosts` -/
+def mergeSeqOp : Handler := fun args =>
+  withVal args "a" fun a => withVal args "b" fun b => withVal args "c" fun c => withVal args "d" fun d =>
+    Json.mkObj [("labels", Val.toJson (mergeToSequence a b)), ("extra_hosts", Val.toJson (mergeExtraHosts c d))]
+
+def mergeOp : Handler := fun args =>
+  withVal args "base" fun b =>
+    withVal args "over" fun o =>
+      match b, o with
+      | .map _, .map _ =>
+        match mergeGeneric b o with
+        | .ok v => Json.mkObj [("ok", Val.toJson v)]
+        | .error _ => Json.mkObj [("err", "cannotOverride")]
+      | _, _ => Json.mkObj [("bad", "top-level")]
+
+def svcOfJson (j : Json) : Svc :=
+  let deps : AL Bool := match j.getObjVal? "deps" with
+    | .ok (.arr a) => a.toList.filterMap fun e => match e with
+      | .arr #[.str d, .bool r] => some (d, r)
+      | _ => none
+    | _ => []
+  { name := getStr j "name", deps := deps }
+
+def svcJson (s : Svc) : Json :=
+  let deps := s.deps.toArray.qsort (fun a b => a.1 < b.1)
+  Json.arr #[Json.str s.name, Json.arr (deps.map fun d => Json.arr #[Json.str d.1, Json.bool d.2])]
+
+def graphOut (j : Json) : Json :=
+  let svcs : List Svc := match j.getObjVal? "services" with
+    | .ok (.arr a) => a.toList.map svcOfJson
+    | _ => []
+  match newGraph svcs (getStrList j "disabled") with
+  | .error e => Json.mkObj [("err", e.toString)]
+  | .ok ss => Json.mkObj [("ok", Json.arr ((ss.toArray.qsort (fun a b => a.name < b.name)).map svcJson))]
+
+/-- one outcome per variant (= one iteration order of the services map and of every depends_on map) -/
+def newGraphOp : Handler := fun args =>
+  match args.getObjVal? "variants" with
+  | .ok (.arr a) => Json.mkObj [("outs", Json.arr (a.map graphOut))]
+  | _ => Json.mkObj [("bad", "variants")]
+
+/-- `ApplyExtends` on same-file references.  args: `services` = `[[name, extendsOrNull, bodyVal]…]` (sorted by name).
+The merge is `mergeGenericKVs` (bodies use only attributes without special merge rules). -/
+def extendsOp : Handler := fun args =>
+  match args.getObjVal? "services" with
+  | .ok (.arr a) =>
+    let svcs : Option (AL (XSvc Val.KVs)) := a.toList.mapM fun e => match e with
+      | .arr #[.str n, ext, body] =>
+        match Val.ofJson body with
+        | .ok (.map kvs) => some (n, ((match ext with | .str r => some r | _ => none), kvs))
+        | _ => none
+      | _ => none
+    match svcs with
+    | none => Json.mkObj [("bad", "services")]
+    | some m =>
+      let mrg : Val.KVs → Val.KVs → Val.KVs := fun b o => match mergeGenericKVs b o with | .ok r => r | .error _ => []
+      match applyAll mrg (m.length + 1) (akeys m) m with
+      | none => Json.mkObj [("err", true)]
+      | some mf => Json.mkObj [("ok", Val.toJson (.map (mf.map fun kv => (kv.1, Val.map kv.2.2))))]
+  | _ => Json.mkObj [("bad", "services")]
+
+def handlers : List (String × Handler) := [
+  ("c02.pmatch", pmatchOp), ("c02.table", tableOp), ("c02.ruleAt", ruleAtOp), ("c02.intoSeq", intoSeqOp),
+  ("c02.ssh", sshOp), ("c02.hosts", hostsOp), ("c02.mapping", mappingOp), ("c02.merge", mergeOp), ("c02.mergeSeq", mergeSeqOp),
+  ("c02.newGraph", newGraphOp), ("c02.extends", extendsOp)]
 
 end CV.Ops.C02
